@@ -68,7 +68,7 @@ def pick_chans(rng):
     return rng.sample(range(16), k)
 
 
-def random_plain(rng, kind, n_events, seg=1500, first_id=1):
+def random_plain(rng, kind, n_events, seg=1500, first_id=1, bursts=True):
     """Plain random history for the cc14 / pn scanners: feeds and resets, one instance."""
     out = []
     left = n_events
@@ -78,12 +78,37 @@ def random_plain(rng, kind, n_events, seg=1500, first_id=1):
                     "via": "default" if rng.random() < 0.3 else "new"})
         tr = Traffic(rng, kind, pick_chans(rng))
         for _ in range(min(seg, left)):
-            if rng.random() < 0.006:
+            r = rng.random()
+            if r < 0.006:
                 out.append({"op": "reset", "id": iid})
                 tr.last_msb = {}
+            elif r < 0.0075 and bursts:
+                out.extend(burst(rng, iid, tr, kind))
             else:
                 out.append({"op": "feed", "id": iid, "m": tr.msg(), "f": impl(rng)})
         left -= seg
+    return out
+
+
+def burst(rng, iid, tr, kind):
+    """The same operation repeated around 256 times: wrapping 8-bit counters, lazily applied resets
+    and 'every n-th call' logic only show after that many steps."""
+    n = rng.choice([255, 256, 257, 511, 512])
+    what = rng.choice(["reset", "feed", "feed-other"] + (["poll"] if kind == "poll" else []))
+    if what == "reset":
+        return [{"op": "reset", "id": iid}] * n
+    if what == "poll":
+        return [{"op": "poll", "id": iid, "ch": rng.choice(tr.chans)}] * n
+    if what == "feed":
+        m = tr.msg()
+        return [{"op": "feed", "id": iid, "m": m}] * n
+    # resets interleaved with traffic on ONE other channel: the remaining channels stay untouched
+    c = rng.choice(tr.chans)
+    m = [176 + (c + 1) % 16, 7, 1]
+    out = []
+    for _ in range(n):
+        out.append({"op": "reset", "id": iid})
+        out.append({"op": "feed", "id": iid, "m": m})
     return out
 
 
@@ -120,8 +145,10 @@ def random_poll(rng, n_events, seg=1500, first_id=1, timeouts=TIMEOUTS):
                 out.append({"op": "feed", "id": iid, "m": tr.msg(), "f": impl(rng)})
             elif r < 0.80:
                 out.append({"op": "poll", "id": iid, "ch": rng.choice(chans)})
-            elif r < 0.995:
+            elif r < 0.994:
                 out.append({"op": "tick", "id": iid, "dt": rng.choice(tick_choices(to))})
+            elif r < 0.995:
+                out.extend(burst(rng, iid, tr, "poll"))
             else:
                 out.append({"op": "reset", "id": iid})
         left -= seg
